@@ -58,7 +58,8 @@ ATOMS = {
 ATTR_SUFFIX = {"__module__": TRUSTED, "__name__": TRUSTED,
                "co_varnames": TRUSTED}
 CALLS = {
-    "human_methods_": TRUSTED, "strftime": TRUSTED, "time_to_http": TRUSTED,
+    "human_methods_": TRUSTED, "handler_name": TRUSTED,
+    "callable_name": TRUSTED, "strftime": TRUSTED, "time_to_http": TRUSTED,
     "mimetypes.guess_type": TRUSTED,
     "hbytes": TOKEN, "getsize": TOKEN, "getctime": TOKEN, "gmtime": TOKEN,
     "len": TOKEN, "isdir": TOKEN, "isfile": TOKEN,
